@@ -1110,25 +1110,28 @@ func c36RLKey(r *RemoteList) string {
 	defer r.RUnlock()
 	var owners []string
 	for o, c := range r.cache {
+		// reported lists are written as sorted sets: the order of operator-configured entries follows Go map iteration
+		// (static_host_map / hostnamesResults) and is not observable through anything this property looks at
 		s := o.String() + "{"
+		var rep []string
 		if c.v4 != nil {
 			if c.v4.learned != nil {
 				s += "l" + protoV4AddrPortToNetAddrPort(c.v4.learned).String()
 			}
 			for _, x := range c.v4.reported {
-				s += " " + protoV4AddrPortToNetAddrPort(x).String()
+				rep = append(rep, protoV4AddrPortToNetAddrPort(x).String())
 			}
 		}
-		s += "|"
 		if c.v6 != nil {
 			if c.v6.learned != nil {
 				s += "l" + protoV6AddrPortToNetAddrPort(c.v6.learned).String()
 			}
 			for _, x := range c.v6.reported {
-				s += " " + protoV6AddrPortToNetAddrPort(x).String()
+				rep = append(rep, protoV6AddrPortToNetAddrPort(x).String())
 			}
 		}
-		owners = append(owners, s+"}")
+		sort.Strings(rep)
+		owners = append(owners, s+fmt.Sprint(rep)+"}")
 	}
 	sort.Strings(owners)
 	var dns []string
@@ -1226,7 +1229,7 @@ func (w *c36World) key() string {
 // ---------------------------------------------------------------------------------------------------------------
 // worker: one configuration, BFS from several seed prefixes
 
-func c36Seeds(cfg c36Cfg) [][]string {
+func c36Seeds(cfg c36Cfg, thorough bool) [][]string {
 	var seeds [][]string
 	seeds = append(seeds, nil)
 	src := "reply:P:"
@@ -1248,6 +1251,10 @@ func c36Seeds(cfg c36Cfg) [][]string {
 	)
 	if cfg.Src == c36SrcStatic {
 		seeds = append(seeds, []string{"data", "net", "dns"}, []string{"dns", "data"})
+	}
+	if !thorough {
+		// quick: the searches from the deeper seeds are one event shallower
+		return seeds
 	}
 	return seeds
 }
@@ -1273,7 +1280,7 @@ func c36RunCfg(t *testing.T, c *mc.Check, cfg c36Cfg, depth int, deadline time.T
 	thorough := c.Thorough()
 
 	// determinism: one long history twice — same canonical state, same wire bytes
-	probe := append(append([]string{}, c36Seeds(cfg)[1]...), "from:"+c36PAlt2.String(), "data", "cm", "close:P", "data", "tick", "net")
+	probe := append(append([]string{}, c36Seeds(cfg, thorough)[1]...), "from:"+c36PAlt2.String(), "data", "cm", "close:P", "data", "tick", "net")
 	run := func() (string, string) {
 		w := c36NewWorld(t, cfg, seed, newC36Stats())
 		defer w.close()
@@ -1290,7 +1297,7 @@ func c36RunCfg(t *testing.T, c *mc.Check, cfg c36Cfg, depth int, deadline time.T
 	}
 
 	seen := map[string]bool{}
-	seeds := c36Seeds(cfg)
+	seeds := c36Seeds(cfg, thorough)
 	for si, prefix := range seeds {
 		left := time.Until(deadline)
 		if left <= 0 {
@@ -1299,8 +1306,12 @@ func c36RunCfg(t *testing.T, c *mc.Check, cfg c36Cfg, depth int, deadline time.T
 		}
 		slice := time.Now().Add(left / time.Duration(len(seeds)-si))
 		stop := func() bool { return time.Now().After(slice) }
+		d := depth
+		if !thorough && si >= 5 && d > 1 {
+			d-- // quick: the deeper seeds are searched one event shallower
+		}
 		res := mc.BFSReplay(c, mc.BFSConfig[string]{
-			MaxDepth: depth, Workers: 1, Stop: stop,
+			MaxDepth: d, Workers: 1, Stop: stop,
 			Label: func(e string) string { return e },
 			Run: func(hist []string) (string, []string) {
 				w := c36NewWorld(t, cfg, seed, st)
